@@ -177,7 +177,7 @@ def _window(e: ast.expr):
             if isinstance(sl, ast.Slice) and sl.step is None:
                 return ("slice", sl.lower or ast.Constant(0), sl.upper)
         return None
-    if isinstance(e, ast.Subscript) and isinstance(e.value, ast.Call) and (dotted(e.value.func) or "").endswith("unpack_from") and src(e.value.args[0]) == D:
+    if isinstance(e, ast.Subscript) and isinstance(e.value, ast.Call) and isinstance(e.value.func, ast.Attribute) and e.value.func.attr == "unpack_from" and src(e.value.args[0]) == D:
         return ("struct", e.value.args[1] if len(e.value.args) > 1 else ast.Constant(0))
     return None
 
@@ -374,7 +374,7 @@ def _set_unaligned(chk, folder, ff, f, iff):
     env, others = _forward([n for n in body])
     # write-back statement
     wb = [(st, e) for st, e in others if isinstance(st, ast.Assign) and isinstance(st.targets[0], ast.Subscript) and src(st.targets[0].value) == D]
-    pk = [(st, e) for st, e in others if isinstance(st, ast.Expr) and isinstance(st.value, ast.Call) and (dotted(st.value.func) or "").endswith("pack_into")]
+    pk = [(st, e) for st, e in others if isinstance(st, ast.Expr) and isinstance(st.value, ast.Call) and isinstance(st.value.func, ast.Attribute) and st.value.func.attr == "pack_into"]
     if pk and not wb:
         st, e = pk[0]
         chk.bad("R2", f"{site} | insertion window", f.loc(st),
